@@ -41,6 +41,9 @@ type Config struct {
 	// FastBoxClock: in silent mode, set the sweep period of the scheme's msg.Box (an exported field of an exported type
 	// embedded in the value SilentScheme returns) before its first use, so that the GC clock ticks during short runs
 	FastBoxClock time.Duration
+	// PermutePicks: the silent-mode pickMembers function returns the members in a non-ascending order (the same at every node,
+	// determined by the topic name). The README's own sample picker is a topic-dependent permutation.
+	PermutePicks bool
 }
 
 type Cluster struct {
@@ -173,6 +176,19 @@ func (c *Cluster) SetPick(topicName string, members []uint16) {
 	c.mu.Lock()
 	defer c.mu.Unlock()
 	th := Hash([]byte(topicName))
+	if c.Cfg.PermutePicks && len(members) > 1 {
+		// sorted descending, then rotated by a topic-dependent amount: never ascending for len > 2, reversed for len 2
+		m := append([]uint16{}, members...)
+		sort.Slice(m, func(i, j int) bool { return m[i] > m[j] })
+		if len(m) > 2 {
+			k := int(th[0]) % (len(m) - 1)
+			m = append(m[k:], m[:k]...)
+			if sort.SliceIsSorted(m, func(i, j int) bool { return m[i] < m[j] }) {
+				m[0], m[1] = m[1], m[0]
+			}
+		}
+		members = m
+	}
 	c.picks[string(th)] = append([]uint16{}, members...)
 	c.picks[string(Hash(th))] = append([]uint16{}, members...)
 	if topicName == tss.DkgTopicName {
